@@ -35,6 +35,31 @@ def _twin_floors(m):
                 destroy_listener_same_slot_on_two_signals_of_one_emitter=25000 * m, destroy_emitter_same_slot_on_two_signals_of_one_emitter=20000 * m,
                 listener_walks_of_slot_on_two_signals_of_one_emitter=500000 * m, scripted_twin_signal_scenarios=27)
 
+# class shapes (h_callback.cpp "class shapes"): the same events must have been observed on every receiver-class shape (where the slot's declaring class sits in
+# the receiver class: own / primary base / secondary base at a non-zero offset / secondary base with the virtual slots overridden / slots of a class whose
+# Listener base sits behind a secondary base) and on both emitter-class shapes; m = multiplier on the quick floors
+def _shape_floors(m):
+    d = {}
+    for sh in ('primary_base', 'secondary_base', 'secondary_base_overridden', 'own_behind_secondary_base'):
+        for ev, n in (('create', 110000), ('connect', 350000), ('connect_signal_emitting', 55000), ('disconnect_live', 150000), ('disconnect_live_signal_emitting', 50000),
+                      ('reconnect_after_disconnect', 75000), ('invoked', 330000), ('invoked_virtual_slot', 110000), ('emission_completed_without_disconnected_slot', 130000),
+                      ('destroy_connected', 48000), ('destroy_in_own_slot', 19000), ('emitter_side_records_matched_by_walks', 2300000)):
+            d['listener_shape_%s_%s' % (sh, ev)] = n * m
+        if sh != 'own_behind_secondary_base':
+            d['listener_shape_%s_disconnect_live_via_other_pointer_type' % sh] = 43000 * m
+    d['listener_shape_secondary_base_overridden_invoked_body_of_derived_class'] = 110000 * m
+    d['listener_shape_own_behind_secondary_base_invoked_body_of_derived_class'] = 330000 * m
+    for ev, n in (('create', 240000), ('connect', 880000), ('disconnect_live', 380000), ('emit', 980000), ('emit_recursive', 85000), ('invoked', 840000),
+                  ('destroy_connected', 95000), ('destroy_while_emitting', 37000)):
+        d['emitter_shape_secondary_base_%s' % ev] = n * m
+    d['connect_through_base_class_pointer'] = 330000 * m
+    d['disconnect_live_through_other_pointer_type_than_connect'] = 200000 * m
+    d['scripted_class_shape_scenarios'] = 180      # 9 arities x 5 receiver shapes x 2 emitter shapes x 2 pointer-type variants (one shard's worth)
+    d['set:listener_shape_event'] = 65             # 5 shapes x 13 events, plus body-of-derived-class on the two shapes that have one, plus other-pointer-type on the three that can
+    d['set:emitter_shape_event'] = 16
+    d['set:shape_pair_invoked'] = 10
+    return d
+
 SPEC = dict(
     level='exploration',
     rule='(programs) case = one random program over 1..3 heap-allocated emitters x 1..3 signals x 1..4 heap-allocated listeners x 2 slots per signal (the emitter class has two signal members '
@@ -54,6 +79,15 @@ SPEC = dict(
          'model. Fallback flavour (-DVERIF_NO_PRIVATE, used automatically when the harness no longer compiles against the private members): no walk; the bookkeeping clause is then checked only '
          'indirectly through later emissions, the final sweep, the destructions and ASan (observed set bookkeeping_clause, counter quiescent_points_bookkeeping_checked_only_indirectly). Scripted scenarios (three historic ones and three twin-signal ones: slot connected to sigK then sigKb of one emitter, the later connection disconnected at top level / '
          'from its own slot, then listener or emitter destroyed) run for every arity in every shard. '
+         'Class shapes (added for the receiver/emitter-type dimension of the connect()/disconnect() templates): in 7 of 8 random programs every listener object (also a recreated one) draws one of '
+         'five receiver-class shapes - slot declared in the receiver class itself (the shape of all exhaustive programs), inherited from the primary base (offset 0), from a secondary base at a '
+         'NON-ZERO offset (struct W : Model, Li), the same with every virtual slot overridden in W (the slot pointer must reach the overrider with this = the W object), and slots declared by a '
+         'class whose Listener base sits behind a secondary base - and every emitter object one of two emitter-class shapes (signal declared in the emitter class / in a secondary base at a '
+         'non-zero offset); in 3 of 4 programs 1 call in 4 names a derived object through a pointer to its base class Li / Em instead (connect through W*, disconnect through Y* and vice versa). '
+         'The same model, oracles and walks run over all shapes; every slot body also reports the this it ran with and which class body ran (keys '
+         'Emitter.emit/receiver-shape=<s>/slot-invoked-with-misadjusted-this, .../wrong-function-body); verdict keys carry /receiver-shape=<s> and /emitter-shape=<s> when the objects concerned '
+         'are not of the plain shape. A scripted scenario (connect a, b, other; emit; disconnect a; emit; reconnect; emit; self-disconnect of both from the slot; emit; reconnect; destroy listener or emitter; emit) '
+         'runs for every (arity, receiver shape, emitter shape, pointer-type variant) in every shard. '
          '(exhaustive-q/-t) case = one of ALL 2*8^M*10^N programs (quick M=2,N=3; thorough M=3,N=4) over E0, L0, L1, one signal (0 arguments), one slot each; '
          '(exhaustive-arities-q/-t) the same program space (quick M=2,N=3; thorough M=3,N=3) enumerated completely for EACH of the nine signal arities 0..8: prefix (connect L0, [L0 again,] L1), emit, '
          'M top-level actions from {emit, connect/disconnect/delete L0|L1, delete E0}, emit, emit, where the slot invocations consume in execution order a stream of N nested actions from '
@@ -68,6 +102,10 @@ SPEC = dict(
                  'clean-up) describe no connection wherever they are met, a dirty flag still set at a quiescent point and a record still "connecting" while that flag is set are pending clean-up (counted, '
                  'no verdict): the moment of the deferred clean-up and the container types are not observable. Kept as design invariants: no activation registered outside emissions, list size = linked items, '
                  'no "connecting" record with a clear dirty flag outside emissions',
+                 'class shapes: a connection made through a pointer to the complete receiver object can be disconnected through a pointer to the base class that declares the slot and vice versa '
+                 '(same object, same member function = same connection; the code reduces both to the declaring-class subobject); the structure walk accepts an emitter-side record in either '
+                 'representation (declaring-class subobject + slot as its member, or receiver object + slot converted to a member of the receiver class) as long as object and slot key agree; '
+                 'virtual inheritance of the slot-declaring class is not exercised',
                  'in the fallback flavour (no private access) only the floors on ops and cases apply; all model / ASan oracles are the same and the same programs run (same seeds, same fingerprints)',
                  'the emitter class of the harness is not polymorphic: Emitter::emit calls slots through a pointer cast to the emitter class (type erasure), which -fsanitize=vptr would flag for any polymorphic emitter'],
     technique='lockstep reference model of connection records + invocation log + final sweep emission + access-override structure walk at quiescent points (normal flavour), under ASan/UBSan',
@@ -85,12 +123,12 @@ SPEC = dict(
                     exhaustive_programs=1280000, exhaustive_programs_all_arities=1152000, op_emit_recursive_same_signal=200000, op_destroy_emitter_while_emitting=100000, op_destroy_emitter_with_nested_emissions=20000,
                     op_destroy_listener_with_pending_slots=60000, op_disconnect_behind_dead_record_of_same_slot=100000, op_destroy_listener_behind_other_record_of_same_slot=60000,
                     dcd_sequences_signal_emitting=50000, pending_slot_dropped_before_its_turn=150000, passed_over_connected_during_emission=400000, max_emission_depth=4,
-                    **{'set:action_at_depth': 80}, **_twin_floors(1),
+                    **{'set:action_at_depth': 80}, **_twin_floors(1), **_shape_floors(1),
                     **_arity_floors(emit=350000, connect=400000, disconnect=170000, invoked=450000, conn_emitting=70000, disc_emitting=65000, passed_over=70000, dropped=45000, ended=30000, recursive=40000)),
             T: dict(ops=350000000, cases=25000000, final_sweep_emissions=12000000, quiescent_points=120000000, slot_invocations=45000000, invocations_matched=45000000, nested_actions=40000000, quiescent_walks=120000000, records_compared_by_walks=450000000,
                     exhaustive_programs=19456000, exhaustive_programs_all_arities=9216000, op_emit_recursive_same_signal=5000000, op_destroy_emitter_while_emitting=3000000, op_destroy_emitter_with_nested_emissions=500000,
                     op_destroy_listener_with_pending_slots=2500000, op_disconnect_behind_dead_record_of_same_slot=1800000, op_destroy_listener_behind_other_record_of_same_slot=1800000,
                     dcd_sequences_signal_emitting=800000, pending_slot_dropped_before_its_turn=5000000, passed_over_connected_during_emission=9000000, max_emission_depth=4,
-                    **{'set:action_at_depth': 90}, **_twin_floors(14),
+                    **{'set:action_at_depth': 90}, **_twin_floors(14), **_shape_floors(14),
                     **_arity_floors(emit=2800000, connect=3200000, disconnect=1300000, invoked=3600000, conn_emitting=560000, disc_emitting=520000, passed_over=560000, dropped=360000, ended=240000, recursive=320000))},
 )
